@@ -4,3 +4,4 @@ import SJ.Props.C02
 #print axioms SJ.Props.C02.c19_skip_value
 #print axioms SJ.Props.C02.c02_array_order
 #print axioms SJ.Props.C02.c02_string_is_decoded_text
+#print axioms SJ.Props.C02.c02_side_conditions
